@@ -213,19 +213,21 @@ Definition texts_of (mode : Z) (ls : list (list chunk)) : list (list Z) :=
 
 Lemma consume_pure w cp o mode w' ts :
   st_ok w cp -> obj_ok o -> consume true fts w cp o mode = Ok (w', ts) ->
-  ts = texts_of mode (plines w' cp (o_lines o)) /\ good true fts w w'.
+  ts = texts_of mode (plines w' cp (o_lines o)) /\ good true fts w w' /\
+  (forall K, In K (lines_subs (o_lines o)) -> present w' cp K).
 Proof.
   intros Hst Hok. unfold consume, texts_of.
   destruct (gen_lines true fts w cp o) as [[w1 ls]|] eqn:E1; [|discriminate]. cbn [bind].
   destruct (gen_lines_pure _ _ _ _ _ Hst Hok E1) as (-> & P1 & G1).
-  destruct (mode =? 0); [intros [= <- <-]; split; [reflexivity|exact G1]|].
-  destruct (mode =? 1); [intros [= <- <-]; split; [reflexivity|exact G1]|].
+  destruct (mode =? 0); [intros [= <- <-]; split; [reflexivity|split; [exact G1|exact P1]]|].
+  destruct (mode =? 1); [intros [= <- <-]; split; [reflexivity|split; [exact G1|exact P1]]|].
   pose proof (st_ok_good _ _ _ Hst G1) as Hst1.
   destruct (gen_lines true fts w1 cp o) as [[w2 ls2]|] eqn:E2; [|discriminate]. cbn [bind].
   destruct (gen_lines_pure _ _ _ _ _ Hst1 Hok E2) as (-> & P2 & G2).
   assert (plines w2 cp (o_lines o) = plines w1 cp (o_lines o)) as Ep.
   { apply plines_grows; [apply G2|apply Hst1|exact P1]. }
-  destruct (mode =? 2); intros [= <- <-]; rewrite Ep; (split; [reflexivity|eapply good_trans; eassumption]).
+  destruct (mode =? 2); intros [= <- <-]; rewrite Ep;
+    (split; [reflexivity|split; [eapply good_trans; eassumption|exact P2]]).
 Qed.
 
 (* whole_eq_lines at the level of the model: whatever the order, the text read
